@@ -52,7 +52,7 @@ theorem outs_anys {v : GVal} (h : Outs anys v) : (∃ a, v = .int a) ∨ (∃ cs
 theorem byFirstMember_outs (p : GP) (neg : Bool) (s : List GVal) {v : GVal}
     (h : Outs (byFirstMember p neg s) v) : evalG p v = .ok (!neg) := by
   induction s with
-  | nil => simp [byFirstMember, Outs] at h
+  | nil => exact h.2
   | cons a as ih =>
     cases a <;> simp only [byFirstMember] at h <;> first | exact h.2 | exact ih h
 
